@@ -111,6 +111,7 @@ type HarnessResult struct {
 	Wall          float64                      `json:"wall_s"`
 	Obs           []string                     `json:"-"`
 	Aborted       string                       `json:"aborted,omitempty"`
+	Params        map[string]int64             `json:"params,omitempty"`
 }
 
 type Explorer struct {
@@ -427,6 +428,7 @@ func (in *Interp) runPath(fn *ssa.Function, it *WorkItem) *PathResult {
 	in.unwind = in.ex.cfg.Unwind
 	in.mapOrderAll = false
 	in.knownActive = ""
+	in.xxMemo = nil
 	in.uncertain = it.Uncertain
 	in.pathStubs = map[string]value{}
 	in.res = &PathResult{Reached: map[string]map[string]string{}}
